@@ -56,18 +56,18 @@ func VerifMarkers() string {
 
 func verifParsed(root syntaxNode) {
 	verifSink.mu.Lock()
+	defer verifSink.mu.Unlock() // the dump may panic on a tree a changed parser built (nil regexp): never keep the lock
 	if verifSink.on {
 		verifSink.tree = `(` + verifChain(root, 0) + `)`
 	}
-	verifSink.mu.Unlock()
 }
 
 func verifFilterList(list []interface{}, members int) {
 	verifSink.mu.Lock()
+	defer verifSink.mu.Unlock()
 	if verifSink.on && len(verifSink.filters) < 64 {
 		verifSink.filters = append(verifSink.filters, `(vl `+strconv.Itoa(members)+` `+verifCells(list)+`)`)
 	}
-	verifSink.mu.Unlock()
 }
 
 func verifStr(s string) string {
